@@ -213,6 +213,12 @@ def hasFracOrExp (t : List Nat) : Bool := t.contains 46 || t.contains 101 || t.c
 
 /-! ## reference rendering -/
 
+/-- mantissa of the scientific notation: `d` or `d.ddd` -/
+def mant (D : List Nat) : List Nat :=
+  match D with
+  | [] => []
+  | d :: rest => d :: (if rest.isEmpty then [] else 46 :: rest)
+
 /-- Reference rendering of the non-zero magnitude `m·10^e` (`m` without trailing zeros, `D` its digits,
     `sci` the exponent in scientific notation):
     * `sci < -6` or `sci > 20`: `d[.ddd]e±X`,
@@ -222,10 +228,7 @@ def refBody (m : Nat) (e : Int) : List Nat :=
   let point : Int := (D.length : Int) + e
   let sci := point - 1
   if sci < -6 ∨ sci > 20 then
-    (match D with
-     | [] => []
-     | d :: rest => d :: (if rest.isEmpty then [] else 46 :: rest)) ++
-    [101, if sci < 0 then 45 else 43] ++ decimal sci.natAbs
+    mant D ++ [101, if sci < 0 then 45 else 43] ++ decimal sci.natAbs
   else if 0 ≤ e then D ++ List.replicate e.toNat 48 ++ [46, 48]
   else if point ≤ 0 then [48, 46] ++ List.replicate (-point).toNat 48 ++ D
   else D.take point.toNat ++ 46 :: D.drop point.toNat
